@@ -56,6 +56,7 @@ func checkC20(c *core.Ctx) {
 	ruleLeafOperators(c)
 	ruleLateralPush(c)
 	ruleTransactionFilterSides(c)
+	rulePartialAddressTerminator(c)
 	// "with or without a point in time": the columns a filter looks at under a PIT (masked
 	// reverted_at, history metadata) are produced by the PIT projection (C05) and by the history
 	// triggers (C17); their structure is a necessary condition of filtering exactly
@@ -698,4 +699,55 @@ func ruleTransactionFilterSides(c *core.Ctx) {
 			}
 		}
 	}
+}
+
+// rulePartialAddressTerminator: a partial address `a:b:` (or `a::c`) matches addresses with exactly
+// as many segments as it has; only a trailing `...` opens the length. On transactions the match is
+// a JSON containment on {"<i>": segment, …, "<n>": null}: the `"<n>": null` entry is what pins the
+// length, and it must be there unless the last segment is `...`.
+func rulePartialAddressTerminator(c *core.Ctx) {
+	d := fn(c, pkgStore, "", "filterAccountAddressOnTransactions")
+	if d == nil {
+		return
+	}
+	info := d.Pkg.TypesInfo
+	key := declKey(d)
+	var term *ast.AssignStmt
+	ast.Inspect(d.Decl.Body, func(n ast.Node) bool {
+		as, ok := n.(*ast.AssignStmt)
+		if !ok || len(as.Lhs) != 1 || len(as.Rhs) != 1 || !astx.IsNilExpr(info, as.Rhs[0]) {
+			return true
+		}
+		if ix, ok := ast.Unparen(as.Lhs[0]).(*ast.IndexExpr); ok && strings.Contains(nospace(types.ExprString(ix.Index)), "len(") {
+			term = as
+		}
+		return true
+	})
+	if term == nil {
+		c.Fail("SQLS/partial-address", key+":length-terminator", pos(c, d.Decl), "the partial-address match on transactions no longer pins the number of segments (`\"<n>\": null`): `users:` also matches `users:alice:wallet`")
+		return
+	}
+	var extra []string
+	open := false
+	for _, ft := range xfactsAt(info, d.Decl.Body, term.Pos()) {
+		be, ok := ft.Cond.(*ast.BinaryExpr)
+		isOpen := false
+		if ok && (be.Op == token.NEQ || be.Op == token.EQL) {
+			if cs, isC := constStr(info, be.Y); isC && cs == "..." {
+				isOpen = true
+				if (be.Op == token.NEQ && ft.Positive) || (be.Op == token.EQL && !ft.Positive) {
+					open = true
+				}
+			}
+		}
+		if call, isCall := ft.Cond.(*ast.CallExpr); isCall {
+			if f := astx.Callee(info, call); f != nil && f.Name() == "isPartialAddress" {
+				continue
+			}
+		}
+		if !isOpen {
+			extra = append(extra, types.ExprString(ft.Cond))
+		}
+	}
+	c.Check(open && len(extra) == 0, "SQLS/partial-address", key+":length-terminator", pos(c, term), "length pinned unless the last segment is `...`", fmt.Sprintf("the entry that pins the number of segments is added under another condition than `last segment != \"...\"` (extra conditions: %v): a partial address matches addresses of another length", extra))
 }
